@@ -22,6 +22,8 @@ from .engine_expr import ExprMixin
 from .engine_call import CallMixin
 from .engine_stmt import StmtMixin
 from .engine_builtins import BuiltinsMixin
+from .engine_quant import QuantMixin
+from .engine_loops import LoopMixin
 from .contracts import Contract
 
 MAX_PATHS = 4000
@@ -58,7 +60,7 @@ class FuncResult:
         return [o for o in self.obligations if o.verdict == 'unknown']
 
 
-class Verifier(ExprMixin, CallMixin, StmtMixin, BuiltinsMixin, EngineBase):
+class Verifier(QuantMixin, LoopMixin, ExprMixin, CallMixin, StmtMixin, BuiltinsMixin, EngineBase):
     def __init__(self, index: Index, contracts: Dict[str, Contract]):
         super().__init__(index)
         self.contracts = contracts
@@ -69,12 +71,17 @@ class Verifier(ExprMixin, CallMixin, StmtMixin, BuiltinsMixin, EngineBase):
         self.loop_contracts: Dict[Tuple[str, int], Any] = {}
         self.cross_check = False
         self.cross: List[Dict[str, Any]] = []
+        self.oracles: Dict[str, Dict[str, Any]] = {}
+        self.field_types: Dict[Tuple[str, str], str] = {}
 
     def reset_path(self, decisions):
         super().reset_path(decisions)
         self.exc_stack = []
         self.hint_classobj = {}
         self.depth = 0
+        self.quant_reset()
+        self.container_elem_type = {}
+        self.st.ghost['trace'] = z3.Const('G_trace', smt.SeqV)
 
     # ==================================================================================== type specs
     def resolve_class(self, q: str) -> ClassInfo:
@@ -102,6 +109,8 @@ class Verifier(ExprMixin, CallMixin, StmtMixin, BuiltinsMixin, EngineBase):
             return z3.And(smt.isjson(v),
                           z3.Or(Val.is_none(v), Val.is_bool(v), Val.is_int(v), Val.is_flt(v), Val.is_str(v),
                                 z3.And(Val.is_ref(v), Val.r(v) >= 0, z3.Or(cid == L.cid, cid == D.cid))))
+        if spec in ('str', 'int', 'bool', 'none'):
+            self.kind_hint_pending = (smt.simp(v).get_id(), spec)
         if spec == 'str':
             return Val.is_str(v)
         if spec == 'int':
@@ -144,6 +153,8 @@ class Verifier(ExprMixin, CallMixin, StmtMixin, BuiltinsMixin, EngineBase):
 
     def assume_type(self, v, spec: str) -> None:
         self.assume(self.type_formula(v, spec))
+        if spec in ('str', 'int', 'bool', 'none'):
+            self.kind_hint[smt.simp(v).get_id()] = spec
         self.bound_ref(v)
 
     # ==================================================================================== spec primitives
@@ -162,10 +173,24 @@ class Verifier(ExprMixin, CallMixin, StmtMixin, BuiltinsMixin, EngineBase):
             self.unsupported('old() outside a postcondition', e)
         cur = self.st.snapshot()
         self.st.restore(self.old)
+        w0 = len(self.writes)
         try:
             return self.ev(e.args[0], fr)
         finally:
+            # cells of objects allocated while evaluating in the pre-state are carried over
+            after = self.st.snapshot()
             self.st.restore(cur)
+            for fld, ref, _ in self.writes[w0:]:
+                rr = smt.simp(ref)
+                if not (z3.is_int_value(rr) and rr.as_long() >= smt.FRESH_BASE):
+                    continue
+                if fld == '$seq':
+                    self.st.seq = z3.Store(self.st.seq, rr, z3.Select(after.seq, rr))
+                elif fld == '$dict':
+                    self.st.dct = z3.Store(self.st.dct, rr, z3.Select(after.dct, rr))
+                    self.st.dlen = z3.Store(self.st.dlen, rr, z3.Select(after.dlen, rr))
+                elif fld in after.attrs:
+                    self.st.attrs[fld] = z3.Store(self.attr_array(fld), rr, z3.Select(after.attrs[fld], rr))
 
     def prim_implies(self, e, fr):
         a = self.ev(e.args[0], fr)
@@ -210,6 +235,71 @@ class Verifier(ExprMixin, CallMixin, StmtMixin, BuiltinsMixin, EngineBase):
     def prim_str_of(self, e, fr):
         v = self.ev(e.args[0], fr)
         return smt.simp(Val.str(smt.pystr(v)))
+
+    def prim_uf(self, e, fr):
+        """uf('name', a, b, ...): uninterpreted spec predicate over values (a dependency's semantics)"""
+        name = ast.literal_eval(e.args[0])
+        args = [self.ev(a, fr) for a in e.args[1:]]
+        f = z3.Function(f'uf_{name}', *([Val] * len(args)), z3.BoolSort())
+        return self.to_val_bool(f(*args))
+
+    def prim_ufv(self, e, fr):
+        """ufv('name', a, ...): uninterpreted spec function returning a value"""
+        name = ast.literal_eval(e.args[0])
+        args = [self.ev(a, fr) for a in e.args[1:]]
+        f = z3.Function(f'ufv_{name}', *([Val] * len(args)), Val)
+        return f(*args)
+
+    def prim_trace(self, e, fr):
+        """ghost: the sequence of calls made to abstract user callables so far; each event is a tuple
+        (callee, args tuple, kwargs dict)"""
+        t = self.alloc(builtin_class('tuple'))
+        self.set_seq(t, self.st.ghost['trace'])
+        return t
+
+    # ==================================================================================== oracles
+    def oracle_hook(self, fv, args, kwargs, star, dstar, node=None):
+        """call of an abstract user callable: recorded in the ghost trace; the outcome is a fresh value /
+        exception constrained only by the user contract stated for its kind (contracts/oracles.py)"""
+        c = self.class_of(fv)
+        spec = self.oracles.get(c.name if c is not None else '', {'returns': 'any', 'raises': ('Exception',)})
+        items = list(args)
+        if star is not None:
+            at = self.alloc(builtin_class('tuple'))
+            self.set_seq(at, z3.Concat(self.seq_of_items(items), self.get_seq(star)) if items else self.get_seq(star))
+        else:
+            at = self.mk_tuple(items)
+        if dstar is not None:
+            kd = self.dict_copy(dstar)
+            for k, v in kwargs.items():
+                self.dict_set(kd, smt.mk_str(k), v)
+        else:
+            kd = self.mk_dict([(smt.mk_str(k), v) for k, v in kwargs.items()])
+        return self.oracle_outcome(spec, 'call', fv, at, kd)
+
+    def record_event(self, kind: str, fv, at, kd, outcome: str, value) -> None:
+        evt = self.mk_tuple([smt.mk_str(kind), fv, at, kd, smt.mk_str(outcome), value])
+        self.st.ghost['trace'] = smt.simp(z3.Concat(self.st.ghost['trace'], z3.Unit(evt)))
+
+    def oracle_outcome(self, spec, kind: str, fv, at, kd):
+        raises = list(spec.get('raises', ()))
+        k = self.choose([z3.BoolVal(True)] * (1 + len(raises))) if raises else 0
+        if k == 0:
+            res = self.fresh('orc')
+            self.bound_ref(res)
+            self.assume_type(res, spec.get('returns', 'any'))
+            self.record_event(kind, fv, at, kd, 'ret', res)
+            return res
+        K = self.resolve_class(raises[k - 1])
+        exc = self.fresh('oexc')
+        self.assume_type(exc, K.qualname if not K.builtin else K.name)
+        self.assume(Val.r(exc) < smt.FRESH_BASE)
+        inv = spec.get('raised_invariant')
+        if inv:
+            cl = self.index.find(inv)
+            self.assume_checked(self.clause_holds(cl, {cl.node.args.args[0].arg: exc}))
+        self.record_event(kind, fv, at, kd, 'raise', exc)
+        raise PyRaise(exc, 'abstract user callable')
 
     # ==================================================================================== contracts at call sites
     def bind_for_contract(self, fi: FuncInfo, args, kwargs, star, dstar, node=None) -> Dict[str, Any]:
@@ -416,6 +506,7 @@ class Verifier(ExprMixin, CallMixin, StmtMixin, BuiltinsMixin, EngineBase):
         t0 = time.time()
         res = FuncResult(qualname=fi.qualname, contract=f'{ct.module}:{ct.name}', sha1=fi.sha1())
         self.current_func = fi.qualname
+        self.current_contract = ct
         self.obligations = []
         self.pending = [[]]
         self.stats = dict(paths=0, branches=0, feas_checks=0, solver_s=0.0, obligations=0)
